@@ -43,7 +43,7 @@ func ruleUnminedCreditCheckedPerOutput(c *report.Ctx) {
 		for _, chk := range []*ssa.Function{e1, e2} {
 			ok := false
 			for _, cs := range calls(f, chk) {
-				if hdr != nil && loopHeaderOf(cs.Block()) == hdr && instrDominates(cs, s) {
+				if hdr != nil && loopHeaderOf(cs.Block()) == hdr && (instrDominates(cs, s) || !reachesWithout(p, f, hdr, cs, s)) {
 					ok = true
 				}
 			}
